@@ -164,7 +164,7 @@ class ApiCheck(object):
         self.tier = opts.tier
         self.k = 4 if self.tier == 'quick' else 8
         self.hashseeds = hashseed_list(self.seed, self.k)
-        self.budget_s = opts.budget if opts.budget is not None else (70 if self.tier == 'quick' else 900)
+        self.budget_s = opts.budget if opts.budget is not None else (80 if self.tier == 'quick' else 900)
         self.rep = common.Reporter('C11', self.seed, opts.replay_dir)
         self.stats = {
             'runs': 0, 'threaded_runs': 0, 'sequential_runs': 0, 'calls': 0, 'steps': 0, 'switches': 0,
